@@ -15,6 +15,7 @@ CONTROLS = {
     ('C20', 'R2'): ['swallow_send|swallowed', 'neutralise_send|swallowed'],
     ('C02', 'R2'): ['swallow_send|swallowed', 'neutralise_send|swallowed'],
     ('C20', 'R3'): ['ignore_join|join-unchecked'],
+    ('C02', 'R8'): ['lossy_forward|lossy-send'],
 }
 
 
